@@ -1042,7 +1042,12 @@ class CPreProcessor:
             # TODO: check type specifier?
             lhs = expressions.NumericLiteral(lhs, self._int_type, token.loc)
         elif token.typ == "CHAR":
-            lhs, _ = charval(replace_escape_codes(token.val))
+            try:
+                lhs, _ = charval(replace_escape_codes(token.val))
+            except ValueError:
+                self.error(
+                    f"Invalid character constant {token.val}", loc=token.loc
+                )
             # TODO: check type specifier?
             lhs = expressions.NumericLiteral(lhs, self._int_type, token.loc)
         else:
